@@ -126,6 +126,10 @@ impl Bracket {
                 }
             }
             regex.write_char(')').unwrap();
+        } else if self.items.iter().all(BracketItem::matches_multi_character) {
+            // No single character is excluded, so any character matches.
+            // (`[^]` would not be an empty complement in the regex syntax.)
+            regex.write_char('.').unwrap();
         } else {
             regex.write_str("[^").unwrap();
             for item in &self.items {
